@@ -18,8 +18,9 @@ def Run.events (r : Run) : List Event := r.core.events
 def Run.isErr (r : Run) : Bool := r.result == .err
 
 /-- `SliceByLine::byte_count` / `MultiLine::byte_count`. -/
-def byteCount (st : Core) : Nat :=
-  match st.binaryByteOffset with
+def byteCount (cfg : Config) (st : Core) : Nat :=
+  -- `Core::binary_quit_offset`: binary data that is merely converted does not end the search
+  match (if cfg.binary.quitByte.isSome then st.binaryByteOffset else none) with
   | some offset => if offset < st.pos then offset else st.pos
   | none => st.pos
 
@@ -54,7 +55,7 @@ def sliceByLine (cfg : Config) (m : MatcherI) (σ : Script) (slice_ : Bytes) : R
     match body with
     | (st, .err) => ⟨st, .err⟩
     | (st, .ok ()) =>
-      let (st, r) := finish σ st (byteCount st) st.binaryByteOffset
+      let (st, r) := finish σ st (byteCount cfg st) st.binaryByteOffset
       ⟨st, r⟩
 
 /-! ### `MultiLine` -/
@@ -197,7 +198,7 @@ def multiLine (cfg : Config) (m : MatcherI) (σ : Script) (slice_ : Bytes) : Run
     match body with
     | (st, .err) => ⟨st, .err⟩
     | (st, .ok ()) =>
-      let (st, r) := finish σ st (byteCount st) st.binaryByteOffset
+      let (st, r) := finish σ st (byteCount cfg st) st.binaryByteOffset
       ⟨st, r⟩
 
 /-- `Searcher::multi_line_with_matcher`. -/
